@@ -386,6 +386,28 @@ func evalC11Set[T any, S setLikeC11[T, S]](fam setFamC11, cd codecC11[T], newSet
 		}
 	}
 
+	// MapSet.Values hands out "all values in set" in a slice of the caller's: earlier results stay
+	// what they were, whatever is done to the set (or asked of it) later.  (SortedSliceSet.Values
+	// is documented to return the underlying slice and is left out.)
+	type keptC11 struct {
+		orig, snap []T
+		at         string
+	}
+	var kept []keptC11
+	keepValues := func(i int, op string, vs []T) {
+		if !fam.sorted && len(kept) < 64 {
+			kept = append(kept, keptC11{orig: vs, snap: slices.Clone(vs), at: fmt.Sprintf("op %d (%s)", i, op)})
+		}
+	}
+	checkKept := func(i int, op string) {
+		for _, k := range kept {
+			if !slices.EqualFunc(k.orig, k.snap, func(a, b T) bool { return cd.cmp(a, b) == 0 }) {
+				failf("values-owned", "op %d (%s): the slice Values() returned at %s has changed from %s to %s", i, op, k.at, showListC11(cd, k.snap), showListC11(cd, k.orig))
+				return
+			}
+		}
+	}
+
 	var outs []string
 	mid, delPresent, cloned := false, false, false
 	for i, op := range splitOpsC11(script) {
@@ -476,6 +498,8 @@ func evalC11Set[T any, S setLikeC11[T, S]](fam setFamC11, cd codecC11[T], newSet
 		case 'v':
 			var got []T
 			ptok = callPanic(func() { got = recv.Values() })
+			keepValues(i, op, got)
+			checkKept(i, op)
 			switch {
 			case ptok != "":
 				failf("panic", "op %d (%s): Values panicked: %s", i, op, ptok)
@@ -563,6 +587,7 @@ func evalC11Set[T any, S setLikeC11[T, S]](fam setFamC11, cd codecC11[T], newSet
 		outs = append(outs, tok)
 		if mutation {
 			checkAll(i, op)
+			checkKept(i, op)
 		}
 	}
 	class := "trivial-" + fam.name
